@@ -6,7 +6,11 @@ import os
 import traceback
 
 from .. import gcheck
-from ..gcheck import GFamily, run_batches
+from .. import l2
+from .. import tracecheck
+from .. import tlc as tlcmod
+from ..gcheck import GFamily, run_batches, schedule_from_trace, linear_replay
+from ..families import axilic_l2 as al
 from ..graphloop import GraphLoop
 from ..report import Report, MachineryError, ROOT, load_findings
 from ..families import axilic as fam
@@ -172,6 +176,153 @@ def join_lane(report, lane, label, timeout=7200):
     report.notes.extend(r["notes"])
 
 
+# ------------------------------------------------------------------------------------------------ L2 lane
+# (DESIGN.md section 9; specs/axilic/AxiLiteIcModel*.tla, harness/families/axilic_l2.py)
+M_INVS = INVS + ["DirectionsShareNothing"]
+M_PROPS = ["ReadWriteIndependent"]          # = Served (without arbitration) and ServedIfGaps of both directions, in the product
+RW_TRACE = "axilic/AxiLiteIcModelRwTrace"
+RW_FACTORY = "harness.families.axilic_l2:make_any"
+ESCALATE = 4                                # thorough-tier configurations explored when the code drifts from the model
+
+
+def _l2_on_accept(state):
+    def cb(gl):
+        try:
+            duts = l2.graph_cases(gl, al.LANE)
+        except KeyError as ex:
+            # the registers of the model are no longer found in the netlist: the code is not what was modelled
+            state["drifts"].append({"spec": {"kind": "?"}, "m": {}, "clause": "projection", "case": [str(ex), [], [], {}]})
+            return
+        n, dr = l2.conformance(al.LANE, duts)
+        state["graph_cases"] += n
+        state["graph_duts"] += len(duts)
+        state["kinds"].update(d["spec"]["kind"] for d in duts)
+        state["drifts"] += dr
+    return cb
+
+
+def _rw_runs(tier, seed):
+    """runs of the real netlists with both directions driven together, 3 masters x 3 slaves, 3 outstanding"""
+    import random
+    rnd = random.Random(seed * 6007 + 11)
+    shapes = [("shared", 3, 3, 3), ("crossbar", 3, 3, 3)]
+    if tier == "thorough":
+        shapes += [("crossbar", 2, 3, 2), ("shared", 3, 2, 1), ("decoder", 1, 3, 3), ("arbiter", 3, 1, 3), ("p2p", 1, 1, 3)]
+    profiles = [(0.7, 0.7, 0.7, 0.7, 0.7), (0.9, 0.5, 0.3, 0.9, 0.9), (0.4, 0.9, 0.9, 0.3, 0.5), (1.0, 1.0, 1.0, 1.0, 1.0)]
+    ncyc = 200 if tier == "quick" else 1500
+    duts, traces = [], []
+    for kind, n, m, k in shapes:
+        spec = {"kind": kind, "n": n, "m": m, "dir": "rw"}
+        for prof in (profiles[:2] if tier == "quick" else profiles):
+            reset, cases = al.rw_run(spec, k, ncyc, rnd, prof)
+            duts.append({"spec": spec, "m": al.model_cfg(spec), "reset": reset, "cases": cases, "k": k})
+            traces.append({"cfg": al.rw_tcfg(spec, k), "ev": [[c[1], c[2]] for c in cases]})
+    return duts, traces
+
+
+def _describe_rw(spec):
+    return "axi_lite.%s(%dx%d, write and read together)" % (spec["kind"], spec["n"], spec["m"])
+
+
+def run_l2(prop, report, tier, seed, state):
+    """(a) graph conformance happened in the G-mode batches (state); (b) runs of the netlists with both directions
+    driven: every cycle against the model, and the runs themselves against the L1 contract (T-mode); (c) M-mode: model x
+    Env x the clauses, both directions in one product; (d) a drifting kind is explored against the L1 contract at the
+    thorough tier's parameters."""
+    # (b)
+    try:
+        duts, traces = _rw_runs(tier, seed)
+        n, dr = l2.conformance(al.LANE, duts)
+    except KeyError as ex:
+        # the registers of the model are no longer found in the netlist: the code is not what was modelled
+        duts, traces = [], []
+        n, dr = 0, [{"spec": {"kind": "?"}, "m": {}, "clause": "projection", "case": [str(ex), [], [], {}]}]
+    state["drifts"] += dr
+    try:
+        fails, tst = tracecheck.validate(RW_TRACE, traces, INVS + ["BoundedService"]) if traces else ([], {"states": 0})
+        report.add(traces_validated_against_impl=len(traces), trace_states=tst["states"])
+    except MachineryError as ex:
+        # (only seen on changed code: the netlist reacts in a way that makes the recorded stimuli illegal for the
+        # environment specification) - the runs are then not judged, the G-mode verdicts stand
+        fails = []
+        report.note("runs with both directions driven were not judged against the L1 contract: %s" % str(ex).splitlines()[0][:160])
+    for f in fails:
+        d = duts[f["tid"]]
+        ev = traces[f["tid"]]["ev"][:f["l"]]
+        report.violation({"dut": d["spec"], "clause": f["clause"]},
+                         {"family": FAMILY.graph_module, "factory": RW_FACTORY, "spec": d["spec"], "cfg": traces[f["tid"]]["cfg"],
+                          "schedule": [e[0] for e in ev], "trace_module": RW_TRACE, "trace_invariants": INVS + ["BoundedService"],
+                          "observed": ev, "clause": f["clause"]},
+                         "%s violated by %s in a recorded run at cycle %s" % (f["clause"], _describe_rw(d["spec"]), f["l"]))
+    report.add(l2_model={"module": "axilic/AxiLiteIcModel", "graph_duts_conformant": state["graph_duts"],
+                         "graph_edges_judged": state["graph_cases"], "run_duts": len(duts), "run_cycles_judged": n,
+                         "run_largest": "3 masters x 3 slaves, 3 outstanding, write and read traffic together"})
+    # (c)
+    mcfgs = al.mmode_configs(tier)
+    keys = ("cw", "cr", "m", "chkx", "actw", "actr")
+    res = l2.mmode(al.LANE.m_module, [{k: x[k] for k in keys} for x in mcfgs], M_INVS, M_PROPS,
+                   timeout=1500 if tier == "quick" else 5400)
+    report.add(states=res.distinct, transitions=res.generated)
+    report.cov["l2_model"].update({"mmode_configs": len(mcfgs), "mmode_states": res.distinct, "mmode_transitions": res.generated,
+                                   "mmode_wall_s": round(res.wall, 1), "mmode_clauses": M_INVS + ["Served", "ServedIfGaps"] + M_PROPS,
+                                   "mmode_largest": "%d masters x %d slaves, %d outstanding, both directions in one product" % (
+                                       max(x["m"]["n"] for x in mcfgs), max(x["m"]["m"] for x in mcfgs),
+                                       max(max(x["cw"]["k"], x["cr"]["k"]) for x in mcfgs))})
+    if res.violated:
+        # a counterexample on the model: it counts only if the real netlist shows it too
+        x = mcfgs[res.trace[0]["vars"]["d"] - 1]
+        prefix, loop = schedule_from_trace(res)
+        clause = res.temporal_name if res.violated == "temporal" else res.violated
+        sched = list(prefix) + (list(loop) * 60 if loop else [])
+        ev = linear_replay(RW_FACTORY, x["spec"], sched)
+        tcfg = {"cw": x["cw"], "cr": x["cr"], "stallbound": max(1, len(loop) * 60) if loop else 10 ** 6}
+        tinv = [CM[clause]] if clause in CM else (["BoundedService"] if res.violated == "temporal" else INVS)
+        tfails = []
+        if clause != "DirectionsShareNothing":
+            tfails, _ = tracecheck.validate(RW_TRACE, [{"cfg": tcfg, "ev": ev}], tinv)
+        if tfails:
+            report.violation({"dut": x["spec"], "clause": tfails[0]["clause"], "gclause": clause},
+                             {"family": FAMILY.graph_module, "factory": RW_FACTORY, "spec": x["spec"], "cfg": tcfg,
+                              "schedule": [list(i) for i in sched[:2000]], "trace_module": RW_TRACE, "trace_invariants": tinv,
+                              "observed": ev[:2000], "clause": tfails[0]["clause"]},
+                             "%s violated by %s (found on the L2 model in M-mode, reproduced on the netlist) after %d cycles" % (
+                                 tfails[0]["clause"], _describe_rw(x["spec"]), len(prefix)))
+        else:
+            report.note("MODEL-DRIFT axilic: M-mode counterexample to %s on the model of %s does not reproduce on the netlist" % (
+                clause, _describe_rw(x["spec"])))
+            report.add(l2_model_drifts=1)
+    else:
+        # vacuity guard of ReadWriteIndependent: the product does contain a read completing beside a stalled write of
+        # another master, and a write completing beside a stalled read (TLC must find a state of that kind)
+        wit = [x for x in mcfgs if x.get("witness")][:1]
+        for inv in (("NoReadBesideStalledWrite", "NoWriteBesideStalledRead") if tier == "thorough" else ("NoReadBesideStalledWrite",)):
+            wres = l2.mmode(al.LANE.m_module, [{k: x[k] for k in keys} for x in wit], [inv], [], timeout=600, workers=4)
+            if wres.violated != inv:
+                raise MachineryError("vacuous M-mode product: no state witnesses %s" % inv[2:])
+        report.cov["l2_model"]["mmode_witnesses"] = ["ReadBesideStalledWrite"] + (["WriteBesideStalledRead"] if tier == "thorough" else [])
+    # (d)
+    l2.report_drifts(report, al.LANE, state["drifts"])
+    if state["drifts"] and tier == "quick" and not report.violations:
+        # nothing has been reported yet although the code is no longer what was model-checked: look deeper
+        kinds = {d["spec"].get("kind") for d in state["drifts"]}
+        # a drifting arbiter / decoder is part of the shared interconnect and of the crossbar
+        want = kinds | ({"shared", "crossbar"} if kinds - {"p2p"} else set())
+        have = {json.dumps(s_, sort_keys=True) for s_, _ in fam.configs("quick", "C08")}
+        esc = [(s_, c_) for s_, c_ in fam.configs("thorough", "C08")
+               if ("?" in kinds or s_["kind"] in want) and json.dumps(s_, sort_keys=True) not in have
+               and not s_.get("nofollowup")]
+        esc = sorted(esc, key=lambda e: (e[0]["n"] * e[0]["m"] * e[0].get("k", 1), e[0]["kind"], e[0]["dir"]))[:ESCALATE]
+        report.note("escalation: %d thorough-tier configuration(s) of %s explored against the L1 contract" % (len(esc), sorted(want)))
+        try:
+            if esc:
+                run_batches(FAMILY, report, [esc[i:i + 4] for i in range(0, len(esc), 4)], INVS, PROPS, spec_budget=0,
+                            total_budget=0, tlc_timeout=600)
+        except tlcmod.TLCError as ex:
+            if "timeout" not in str(ex):
+                raise
+            report.note("escalation stopped at its time bound (%s)" % str(ex).splitlines()[0][:120])
+
+
 def run(prop, report, tier, seed):
     report.findings = list(report.findings) + notes_findings(report.prop)
     # AXI4 (full) twins: own process, beside the AXI-Lite batches
@@ -191,9 +342,21 @@ def run(prop, report, tier, seed):
         if os.environ.get("VERIF_ONLY_AXI4"):      # development aid (mutation tests of axi_full.py); the evidence says so
             report.note("restricted to the AXI4 batches by VERIF_ONLY_AXI4")
             cfgs = []
+        l2state = {"graph_cases": 0, "graph_duts": 0, "drifts": [], "kinds": set()}
+        use_l2 = bool(cfgs) and not os.environ.get("VERIF_NO_L2")
+        if os.environ.get("VERIF_NO_L2"):          # development aid (timing of the check without the lane); the evidence says so
+            report.note("L2 lane skipped by VERIF_NO_L2")
         stats = run_batches(FAMILY, report, [cfgs[i:i + 4] for i in range(0, len(cfgs), 4)], INVS, PROPS,
-                            spec_budget=0, total_budget=0)
+                            spec_budget=0, total_budget=0, on_accept=_l2_on_accept(l2state) if use_l2 else None)
         report.add(duts_explored=len(stats), clauses=INVS + PROPS, per_dut=stats)
+        if use_l2:
+            report.assume("L2 (specs/axilic/AxiLiteIcModel.tla): register-level model of _AXILiteRequestCounter, RoundRobin(SP_CE), "
+                          "AXILiteArbiter, AXILiteDecoder and their compositions (point to point, shared without time-out, crossbar) "
+                          "with the test bench; it gives no verdict - every edge of the complete G-mode graphs and every cycle of "
+                          "runs with write and read traffic together must be reproduced by the model (else MODEL-DRIFT and "
+                          "escalation), and the model is checked against the same clauses in M-mode with both directions in one "
+                          "product (ReadWriteIndependent, DirectionsShareNothing are M-mode only)")
+            run_l2(prop, report, tier, seed, l2state)
     except BaseException:
         if lane:
             lane[0].terminate()
